@@ -409,15 +409,12 @@ F_C12_step(cfg, pre, post) ==
                         (\E b \in DOMAIN post.nodes[n0].srv : post.nodes[n0].srv[b].id = s.id /\ post.nodes[n0].srv[b].off
                               /\ post.nodes[n0].srv[b].cust = s.cust /\ post.nodes[n0].srv[b].send = post.now)
                         /\ ~\E b \in IdxOf(post, "interrupt") : post.steps[b].i = s.cust)
-       \cup Chk("C12.overtime-recorded", \A a \in IdxOf(post, "kill") :
-             LET s == post.steps[a]
-                 before == Cardinality({b \in 1..a : post.steps[b].k = "kill" /\ post.steps[b].n = s.n})
-                 srvs == IF s.n \in 1..NN(pre) THEN {b \in DOMAIN pre.nodes[s.n].srv : pre.nodes[s.n].srv[b].id = s.s} ELSE {}
-             IN s.n \in 1..NN(pre) /\ cfg.nodes[s.n].kind = "sched" /\ cfg.nodes[s.n].sched.pre = 0 /\ srvs # {} =>
-                   LET sv == pre.nodes[s.n].srv[CHOOSE b \in srvs : TRUE]
-                       pos == Len(pre.nodes[s.n].ot) + before
-                   IN pos \in DOMAIN post.nodes[s.n].ot
-                      /\ post.nodes[s.n].ot[pos] = IF isShift /\ n0 = s.n THEN 0 ELSE post.now - sv.send)
+       \cup Chk("C12.overtime-recorded", \A n \in 1..NN(pre) :
+             \* every server retired at or after a non-pre-emptive shift end leaves one overtime entry
+             \* (the statement does not fix the reported amount; the amount is compared by the refinement check)
+             cfg.nodes[n].kind = "sched" /\ cfg.nodes[n].sched.pre = 0 =>
+                Len(post.nodes[n].ot) = Len(pre.nodes[n].ot)
+                                        + Cardinality({a \in IdxOf(post, "kill") : post.steps[a].n = n}))
        \cup Chk("C12.preemptive-interrupts-at-shift-end",
              isShift /\ n0 \in 1..NN(pre) /\ cfg.nodes[n0].kind = "sched" /\ cfg.nodes[n0].sched.pre # 0 =>
                 \A a \in DOMAIN pre.nodes[n0].srv :
@@ -460,7 +457,7 @@ HasServers(cfg, n) == cfg.nodes[n].kind \in {"std", "sched"}
 F_C05_inv(cfg, S) ==
     Chk("C05.no-idle-server-while-waiting", \A n \in 1..NN(S) :
           HasServers(cfg, n) /\ S.nodes[n].c < INF =>
-             LET waiting == {j \in DOMAIN S.cu : S.cu[j].loc = n /\ (S.cu[j].srv = 0 \/ S.cu[j].intr)}
+             LET waiting == {j \in DOMAIN S.cu : S.cu[j].loc = n /\ (S.cu[j].srv = 0 \/ S.cu[j].srv <= -100)}
                  idle == {a \in DOMAIN S.nodes[n].srv : ~S.nodes[n].srv[a].off /\ ~S.nodes[n].srv[a].busy}
              IN waiting # {} => idle = {})
     \cup Chk("C05.infinite-servers-serve-at-once", \A j \in DOMAIN S.cu :
@@ -487,7 +484,10 @@ F_C08_step(cfg, pre, post) ==
     ELSE
     LET chs == {a \in IdxOf(post, "choose") : post.steps[a].i # 0}
         FirstNonEmpty(wq) == {p \in DOMAIN wq : wq[p] # <<>> /\ \A r \in 1..(p-1) : wq[r] = <<>>}
-        arrOf(i) == IF IsLive(post, i) THEN CuOf(post, i).arr ELSE NONE
+        \* arrival date of a customer that stayed at the node through the whole event (NONE otherwise)
+        arrOf(i) == IF IsLive(post, i) /\ IsLive(pre, i) /\ CuOf(pre, i).arr = CuOf(post, i).arr
+                       /\ CuOf(pre, i).loc = CuOf(post, i).loc
+                    THEN CuOf(post, i).arr ELSE NONE
     IN Chk("C08.highest-priority-class-first", \A a \in chs :
              LET s == post.steps[a]
                  ps == FirstNonEmpty(s.wq)
@@ -510,13 +510,13 @@ F_C08_step(cfg, pre, post) ==
                  ps == FirstNonEmpty(s.wq)
                  w == IF ps = {} THEN <<>> ELSE s.wq[CHOOSE p \in ps : TRUE]
              IN cfg.nodes[s.n].disc = "FIFO" /\ ~(\E x, y \in DOMAIN cfg.cct : cfg.cct[x][y] # <<>>)
-                => \A b \in DOMAIN w : arrOf(s.i) <= arrOf(w[b]))
+                => \A b \in DOMAIN w : arrOf(s.i) = NONE \/ arrOf(w[b]) = NONE \/ arrOf(s.i) <= arrOf(w[b]))
        \cup Chk("C08.lifo-latest-arrival", \A a \in chs :
              LET s == post.steps[a]
                  ps == FirstNonEmpty(s.wq)
                  w == IF ps = {} THEN <<>> ELSE s.wq[CHOOSE p \in ps : TRUE]
              IN cfg.nodes[s.n].disc = "LIFO" /\ ~(\E x, y \in DOMAIN cfg.cct : cfg.cct[x][y] # <<>>)
-                => \A b \in DOMAIN w : arrOf(s.i) >= arrOf(w[b]))
+                => \A b \in DOMAIN w : arrOf(s.i) = NONE \/ arrOf(w[b]) = NONE \/ arrOf(s.i) >= arrOf(w[b]))
        \cup Chk("C08.chosen-one-is-started", \A a \in chs :
              \* the next service start (attach/start) before any other choice concerns the chosen customer
              LET s == post.steps[a]
@@ -937,6 +937,9 @@ Triggers(cfg, pre, post) ==
           THEN {"F13"} ELSE {})
     \cup (IF \E a \in IdxOf(post, "preempt") : post.steps[a].n \in DOMAIN cfg.nodes /\ cfg.nodes[post.steps[a].n].pp = 4
           THEN {"F12"} ELSE {})
+    \cup (IF post.ev.kind = "shift_change" /\ post.ev.node \in DOMAIN cfg.nodes /\ cfg.nodes[post.ev.node].kind = "sched"
+              /\ cfg.nodes[post.ev.node].sched.pre = 4 /\ IdxOf(post, "interrupt") # {}
+          THEN {"F17"} ELSE {})
     \cup (IF post.ev.kind = "arrival" /\ post.now = 0 /\ post.ev.node \in DOMAIN cfg.nodes
               /\ cfg.nodes[post.ev.node].kind \in {"slot", "ps"}
           THEN {"F14"} ELSE {})
